@@ -52,8 +52,10 @@ def widenLayout (l : String) (w : Wall) : String :=
 
 /-- `system.ParseDateTime` (a zero offset is normalised to UTC, any other kept as a fixed zone:
     both are "offset in seconds" here) -/
+def offsetInRange (w : Wall) : Bool := decide (-86400 < w.offset) && decide (w.offset < 86400)
+
 def parseDateTime (s : S) : Option CV :=
-  match parseFirst (layoutsOf parseDateTimeLayouts) (trimPrefix parseDateTimeLayoutsPrefix.toList s) with
+  match parseFirstOk offsetInRange (layoutsOf parseDateTimeLayouts) (trimPrefix parseDateTimeLayoutsPrefix.toList s) with
   | some (i, w) => some (.dateTime (widenLayout (parseDateTimeLayouts.getD i "") w) w)
   | none => none
 
